@@ -122,6 +122,28 @@ def fault_locality(run, prog, RULE):
 
 
 
+
+def hb_cursor_rule(run, prog, RULE):
+    """removal from heart_beats[] during a round keeps the round cursors right (used by C11-d and C08-j)"""
+    shb = run.need(prog.func("set_heart_beat"), "set_heart_beat")
+    run.saw(shb)
+    # ---- C11-d round cursors on removal
+    # the position of the entry being removed: the local that subscripts heart_beats[] in set_heart_beat (whatever it is called)
+    pos_ids = {strip(n["i"]).get("id") for b, i, n in shb.nodes() if n.get("k") == "Sub" and strip(n["b"]).get("n") == "heart_beats" and strip(n["i"]).get("k") == "Ref" and strip(n["i"]).get("d") == "local"}
+    run.need(pos_ids, "local subscript of heart_beats[] in set_heart_beat")
+    for var, cmpop, other in (("num_hb_to_do", "<", "num_hb_to_do"), ("heart_beat_index", "<=", "heart_beat_index")):
+        decs = [(b, i, n) for b, i, n in shb.nodes() if n.get("k") == "Un" and n.get("op") == "--" and strip(n["e"]).get("n") == var]
+        if not decs:
+            run.ob(RULE, "cursor:" + var, False, "set_heart_beat never adjusts %s when an entry is removed" % var, shb.file, shb.line, "set_heart_beat", what="removal from heart_beats[] does not adjust %s" % var)
+            continue
+        b, i, n = decs[0]
+        g = [atom_of(c, t) for c, t, B in cfgq.guards(shb, b.id)]
+        inside = any(op == cmpop and strip(l).get("id") in pos_ids and strip(l).get("d") == "local" and strip(r).get("n") == other for op, l, r in g)
+        in_round = any((op == "true" and strip(l).get("n") == "num_hb_to_do") or (op == "!=" and strip(l).get("n") == "num_hb_to_do" and const_val(r) == 0) for op, l, r in g)
+        run.ob(RULE, "cursor:" + var, inside and in_round and len(decs) == 1, "%s-- under `index %s %s` (%s) and only while a round is running (%s)" % (var, cmpop, other, inside, in_round), shb.file, n.get("l"), "set_heart_beat",
+               what="set_heart_beat(ob,0) adjusts %s for entries that are not part of the running round (or not at all): objects are skipped or called twice in that tick" % var)
+
+
 def check(run, prog, tier):
     run.rule("C11-a", "error_handler: on the uncaught path with current_heart_beat set, set_heart_beat(current_heart_beat,0) and the clearing store precede the jump; current_heart_beat has no other writers; it is set before the heart_beat call", 4)
     run.rule("C11-b", "destruct_object: set_heart_beat(ob, 0) dominates the store that sets O_DESTRUCTED", 1)
@@ -138,21 +160,7 @@ def check(run, prog, tier):
 
     fault_locality(run, prog, "C11-a")
 
-    # ---- C11-d round cursors on removal
-    # the position of the entry being removed: the local that subscripts heart_beats[] in set_heart_beat (whatever it is called)
-    pos_ids = {strip(n["i"]).get("id") for b, i, n in shb.nodes() if n.get("k") == "Sub" and strip(n["b"]).get("n") == "heart_beats" and strip(n["i"]).get("k") == "Ref" and strip(n["i"]).get("d") == "local"}
-    run.need(pos_ids, "local subscript of heart_beats[] in set_heart_beat")
-    for var, cmpop, other in (("num_hb_to_do", "<", "num_hb_to_do"), ("heart_beat_index", "<=", "heart_beat_index")):
-        decs = [(b, i, n) for b, i, n in shb.nodes() if n.get("k") == "Un" and n.get("op") == "--" and strip(n["e"]).get("n") == var]
-        if not decs:
-            run.ob("C11-d", "cursor:" + var, False, "set_heart_beat never adjusts %s when an entry is removed" % var, shb.file, shb.line, "set_heart_beat", what="removal from heart_beats[] does not adjust %s" % var)
-            continue
-        b, i, n = decs[0]
-        g = [atom_of(c, t) for c, t, B in cfgq.guards(shb, b.id)]
-        inside = any(op == cmpop and strip(l).get("id") in pos_ids and strip(l).get("d") == "local" and strip(r).get("n") == other for op, l, r in g)
-        in_round = any((op == "true" and strip(l).get("n") == "num_hb_to_do") or (op == "!=" and strip(l).get("n") == "num_hb_to_do" and const_val(r) == 0) for op, l, r in g)
-        run.ob("C11-d", "cursor:" + var, inside and in_round and len(decs) == 1, "%s-- under `index %s %s` (%s) and only while a round is running (%s)" % (var, cmpop, other, inside, in_round), shb.file, n.get("l"), "set_heart_beat",
-               what="set_heart_beat(ob,0) adjusts %s for entries that are not part of the running round (or not at all): objects are skipped or called twice in that tick" % var)
+    hb_cursor_rule(run, prog, "C11-d")
 
     # ---- C11-b
     flagsets = [(b, i, n) for b, i, n in do.nodes() if n.get("k") == "Asg" and n.get("op") == "|=" and strip(n["L"]).get("f") == "flags" and facts.any_in_macro(n["R"], "O_DESTRUCTED")]
@@ -219,3 +227,29 @@ def check(run, prog, tier):
            shb.file, gn.get("l"), "set_heart_beat", what="set_heart_beat reallocates heart_beats[] without increasing its capacity")
 
     round_init(run, prog, "C11-e")
+
+    # ---- C11-f the flag and the table say the same
+    run.rule("C11-f", "O_HEART_BEAT mirrors membership in heart_beats[]: query_heart_beat() and clone_object() read the bit instead of searching the table, and set_heart_beat() may rely on it too; so the bit is written only inside set_heart_beat(), `|=` on the path that appended the entry and `&= ~` on the path that removed it. A store of the bit anywhere else makes the table and the flag disagree (an entry nobody can remove, an object entered twice)", 2)
+    nfw = 0
+    for f in sorted(prog.functions(), key=lambda x: (x.file, x.line)):
+        for b, i, n in f.nodes():
+            if n.get("k") != "Asg" or strip(n["L"]).get("k") != "Mem" or strip(n["L"]).get("f") != "flags" or "object" not in (strip(n["L"]).get("rec") or ""):
+                continue
+            if not facts.any_in_macro(n["R"], "O_HEART_BEAT"):
+                continue
+            nfw += 1
+            run.saw(f)
+            inside = f.name == "set_heart_beat"
+            ok = inside
+            why = "%s in set_heart_beat()" % show(n)[:50]
+            if inside:
+                # next to the table update: the append store (heart_beats[..] / ->ob =) or the removal (num_hb_objs--) dominates or is in the same block
+                upd = [(b2.id, i2) for b2, i2, n2 in f.nodes() if (n2.get("k") == "Un" and n2.get("op") in ("--", "++") and strip(n2["e"]).get("n") == "num_hb_objs")]
+                near = any(f.point_dominates(p, (b.id, i)) and (p[0] == b.id or f.dominates(p[0], b.id)) for p in upd)
+                ok = near
+                why += ": after the table was updated (num_hb_objs changed on this path)" if near else ": not on a path that updated the table"
+            else:
+                why = "%s() writes the heart-beat bit (`%s`, line %s) without touching heart_beats[]" % (f.name, show(n)[:50], n.get("l"))
+            run.ob("C11-f", "flag-writer:%s:%s" % (f.name, n.get("op")), ok, why, f.file, n.get("l"), f.name,
+                   what="%s - the flag and the heart-beat table disagree afterwards: a later set_heart_beat()/query_heart_beat() that trusts the bit leaves a stale entry or appends a second one" % why)
+    run.need(nfw >= 2, "stores of O_HEART_BEAT into object flags (found %d)" % nfw)
